@@ -673,7 +673,13 @@ pub fn gen_cfg(rng: &mut Prng, max_names: usize, max_depth: usize) -> GenCfg {
     let k = rng.range(1, max_names.max(1));
     let mut all: Vec<String> = NAME_POOL.iter().map(|s| s.to_string()).collect();
     rng.shuffle(&mut all);
-    let pool: Vec<String> = all[..k].to_vec();
+    let mut pool: Vec<String> = all[..k].to_vec();
+    if k >= 2 && rng.chance(1, 12) {
+        // `hash-collision`: two distinct names whose string hashes are equal
+        let (a, b) = colliding_name_pair();
+        pool[0] = a;
+        pool[1] = b;
+    }
     // binder names: some from the free pool (shadowing), some fresh
     let nb = rng.range(1, 3);
     let mut binder_pool = Vec::new();
@@ -696,6 +702,18 @@ pub fn gen_cfg(rng: &mut Prng, max_names: usize, max_depth: usize) -> GenCfg {
         weights,
         max_fix_nesting: rng.range(0, 2),
     }
+}
+
+/// A pair of distinct identifier names with the same FxHash (constructed once).
+pub fn colliding_name_pair() -> (String, String) {
+    static PAIR: std::sync::OnceLock<(String, String)> = std::sync::OnceLock::new();
+    PAIR.get_or_init(|| {
+        crate::fx::colliding_names_9("reqst_x")
+            .into_iter()
+            .find(|(a, b)| !a.chars().next().is_some_and(|c| c.is_ascii_digit()) && !b.chars().next().is_some_and(|c| c.is_ascii_digit()))
+            .expect("a colliding pair of 9-character names exists for this prefix")
+    })
+    .clone()
 }
 
 pub fn gen_formula(rng: &mut Prng, cfg: &GenCfg) -> F {
@@ -840,7 +858,12 @@ fn gen_rec(
             let list: Vec<F> = (0..len)
                 .map(|_| with_flip(fixes, how, |fx| gen_rec(rng, cfg, d.min(2), fx, fix_nesting)))
                 .collect();
-            let c = rng.range(0, len + 2) as u64;
+            // mostly constants around the list length; sometimes a boundary value far above it
+            let c = if rng.chance(1, 12) {
+                *rng.pick(&[63u64, 64, 65, 255, 256, 257, 65535, 65536, 4294967295, 4294967296, 9223372036854775807, 9223372036854775808, 18446744073709551615])
+            } else {
+                rng.range(0, len + 2) as u64
+            };
             F::CountC(op, list, c)
         }
         7 => {
@@ -1039,7 +1062,7 @@ pub fn near_twin(rng: &mut Prng, t: &F) -> Option<F> {
         }
         F::CountC(op, l, c) => {
             if rng.coin() {
-                F::CountC(*op, l.clone(), c + 1)
+                F::CountC(*op, l.clone(), c.checked_add(1).unwrap_or_else(|| c - 1))
             } else {
                 let other = match op {
                     CmpOp::AtMost => CmpOp::LessThan,
